@@ -7,7 +7,7 @@ import gen as gentables
 t0 = time.time()
 ok, info = gentables.gen()
 print('gen tables:', 'ok' if ok else info['errors'])
-rc, out = lake_build(['Upa', 'driver'])
+rc, out = lake_build(['Upa', 'driver', 'owngen'])
 print('lake build Upa driver: rc=%d' % rc)
 if rc != 0: print(out[-3000:])
 h, log = build_harness('asan')
